@@ -309,9 +309,10 @@ def body(case, rec):
 def cases():
     tcs = ['equal', 'touch_after', 'separated', 'overlap', 'acausal', 'acausal_touch', 'acausal_touch', 'acausal']
     tail = pairs.history_cases(max_ops=40).map(lambda c: dict(c, tail=True, sc='disjoint', tc='any'))
-    pr = st.one_of(pairs.target_cases(time_classes=tcs), pairs.target_cases(time_classes=tcs), pairs.history_cases(),
-                   pairs.piece_cases(), tail).map(lambda c: dict(c, kind='pair'))
-    pt = points.point_cases().map(lambda c: dict(c, kind='point'))
+    M = pairs.WITH_MIXED
+    pr = st.one_of(pairs.target_cases(time_classes=tcs, curves=M), pairs.target_cases(time_classes=tcs, curves=M),
+                   pairs.history_cases(curves=M), pairs.piece_cases(curves=M), tail).map(lambda c: dict(c, kind='pair'))
+    pt = points.point_cases(polygons=True).map(lambda c: dict(c, kind='point'))
     return st.one_of(pr, pr, pt, pt, matrix_cases())
 
 
